@@ -234,7 +234,7 @@ pub fn evaluate_binary_op_normal(a: &Val, op: BinaryOpType, b: &Val) -> Result<V
 			let base = v1.truncate_for_bitwise()?;
 			let exp = v2.truncate_for_bitwise()? % 64;
 
-			if exp >= 1 && base >= (1i64 << (63 - exp as u32)) {
+			if exp >= 1 && (base >= (1i64 << (63 - exp as u32)) || base < (i64::MIN >> exp as u32)) {
 				bail!("left shift would overflow")
 			}
 			Val::try_num(base.wrapping_shl(exp as u32) as f64)?
